@@ -509,7 +509,7 @@ func (c *Client) reconnect(ctx context.Context) error {
 func (c *Client) doRountrip(ctx context.Context, msg *kmip.RequestMessage) (*kmip.ResponseMessage, error) {
 	c.lock.Lock()
 	defer c.lock.Unlock()
-	if c.conn == nil {
+	if c.conn == nil || c.conn.broken() {
 		if err := c.reconnect(ctx); err != nil {
 			return nil, err
 		}
